@@ -233,6 +233,7 @@ Proof. intros v H. constructor; cbn; [exact H|constructor]. Qed.
 Lemma inv_allocate : forall R r c q R' o, Inv_ledger R -> r_allocate R r c q = (R', o) -> Inv_ledger R'.
 Proof.
   intros R r c q R' o [C K I_] H. unfold r_allocate in H.
+  destruct (q <? 0); [inversion H; subst; constructor; assumption|].
   destruct (r_available R r <? q); [inversion H; subst; constructor; assumption|].
   destruct (alloc_loop r q (r_avail R)) as [v recs] eqn:El. inversion H; subst; clear H.
   destruct (alloc_loop_spec _ _ _ _ _ El) as (C' & K' & I' & _ & _).
@@ -243,9 +244,11 @@ Proof.
     apply (al_append_forall (fun l => Forall (fun kq => In (fst kq) (map fst (r_avail R))) l)); auto.
     intros x y Hx Hy. apply Forall_app. split; assumption.
 Qed.
-Lemma nonneg_allocate : forall R r c q R' o, 0 <= q -> Nonneg R -> r_allocate R r c q = (R', o) -> Nonneg R'.
+(* a negative quantity is refused (/repo 84d7416), so no hypothesis on q is needed any more *)
+Lemma nonneg_allocate_any : forall R r c q R' o, Nonneg R -> r_allocate R r c q = (R', o) -> Nonneg R'.
 Proof.
-  intros R r c q R' o Hq [A B] H. unfold r_allocate in H.
+  intros R r c q R' o [A B] H. unfold r_allocate in H.
+  destruct (q <? 0) eqn:Hq0; [inversion H; subst; constructor; assumption|]. assert (Hq : 0 <= q) by lia.
   destruct (r_available R r <? q); [inversion H; subst; constructor; assumption|].
   destruct (alloc_loop r q (r_avail R)) as [v recs] eqn:El. inversion H; subst; clear H.
   destruct (alloc_loop_spec _ _ _ _ _ El) as (_ & _ & _ & N & Rn).
@@ -253,6 +256,8 @@ Proof.
   apply (al_append_forall nonneg_vec); auto; [|constructor].
   intros x y Hx Hy. apply Forall_app. split; assumption.
 Qed.
+Lemma nonneg_allocate : forall R r c q R' o, 0 <= q -> Nonneg R -> r_allocate R r c q = (R', o) -> Nonneg R'.
+Proof. intros R r c q R' o _. apply nonneg_allocate_any. Qed.
 
 Lemma inv_alloc_seq : forall req R c R' o, Inv_ledger R -> alloc_seq R req c = (R', o) -> Inv_ledger R'.
 Proof.
@@ -270,6 +275,15 @@ Proof.
     destruct (r_allocate R r c q) as [R1 [u|e]] eqn:Ea.
     + eapply IH; [exact H2| |exact H]. eapply nonneg_allocate; eauto.
     + inversion H; subst. eapply nonneg_allocate; eauto.
+Qed.
+
+Lemma nonneg_alloc_seq_any : forall req R c R' o, Nonneg R -> alloc_seq R req c = (R', o) -> Nonneg R'.
+Proof.
+  induction req as [|[r q] req IH]; intros R c R' o HI H; cbn [alloc_seq] in H.
+  - inversion H; subst. exact HI.
+  - destruct (r_allocate R r c q) as [R1 [u|e]] eqn:Ea.
+    + eapply IH; [|exact H]. eapply nonneg_allocate_any; eauto.
+    + inversion H; subst. eapply nonneg_allocate_any; eauto.
 Qed.
 
 Lemma firstn_skipn_sum : forall P n (l : rvec), sumP P (firstn n l) + sumP P (skipn n l) = sumP P l.
@@ -290,9 +304,9 @@ Proof.
   - destruct (comp_eqb c' c) eqn:E; cbn [al_find]; rewrite E; [reflexivity|exact IH].
 Qed.
 
-Lemma inv_rollback : forall R c n, Inv_ledger R -> Inv_ledger (r_rollback R c n).
+Lemma inv_rollback : forall R c n had, (had = false -> n = 0%nat) -> Inv_ledger R -> Inv_ledger (r_rollback R c n had).
 Proof.
-  intros R c n [C K I_]. unfold r_rollback. destruct (al_find c (r_allocs R)) as [l|] eqn:Ef; [|constructor; assumption].
+  intros R c n had Hh [C K I_]. unfold r_rollback. destruct (al_find c (r_allocs R)) as [l|] eqn:Ef; [|constructor; assumption].
   pose proof (al_find_in (fun l => Forall (fun kq => In (fst kq) (map fst (r_avail R))) l) _ _ _ I_ Ef) as Hl.
   assert (Hs : Forall (fun kq => In (fst kq) (map fst (r_avail R))) (skipn n l)).
   { rewrite <- (firstn_skipn n l) in Hl. apply Forall_app in Hl. tauto. }
@@ -301,20 +315,20 @@ Proof.
   fold (add_all (skipn n l) (r_avail R)).
   constructor; cbn [r_avail r_total r_allocs].
   - intro P. rewrite sumP_add_all. specialize (C P). pose proof (firstn_skipn_sum P n l) as Hfs.
-    destruct (n =? 0)%nat eqn:En.
-    + apply Nat.eqb_eq in En. subst n. cbn [firstn skipn sumP] in *.
-      rewrite allocs_sum_remove, al_get_set, allocs_sum_set, (al_find_get _ _ _ Ef). cbn [sumP]. lia.
+    destruct had.
     + rewrite allocs_sum_set, (al_find_get _ _ _ Ef). lia.
+    + rewrite (Hh eq_refl) in *. cbn [firstn skipn sumP] in *.
+      rewrite allocs_sum_remove, al_get_set, allocs_sum_set, (al_find_get _ _ _ Ef). cbn [sumP]. lia.
   - rewrite keys_add_all; [exact K|exact Hs].
   - apply recs_in_keys with (v := r_avail R); [apply keys_add_all; exact Hs|].
-    destruct (n =? 0)%nat.
+    destruct had.
+    + apply (al_set_forall (fun l => Forall (fun kq => In (fst kq) (map fst (r_avail R))) l)); assumption.
     + apply (al_remove_forall (fun l => Forall (fun kq => In (fst kq) (map fst (r_avail R))) l)).
       apply (al_set_forall (fun l => Forall (fun kq => In (fst kq) (map fst (r_avail R))) l)); assumption.
-    + apply (al_set_forall (fun l => Forall (fun kq => In (fst kq) (map fst (r_avail R))) l)); assumption.
 Qed.
-Lemma nonneg_rollback : forall R c n, Nonneg R -> Nonneg (r_rollback R c n).
+Lemma nonneg_rollback : forall R c n had, Nonneg R -> Nonneg (r_rollback R c n had).
 Proof.
-  intros R c n [A B]. unfold r_rollback. destruct (al_find c (r_allocs R)) as [l|] eqn:Ef; [|constructor; assumption].
+  intros R c n had [A B]. unfold r_rollback. destruct (al_find c (r_allocs R)) as [l|] eqn:Ef; [|constructor; assumption].
   pose proof (al_find_in nonneg_vec _ _ _ B Ef) as Hl.
   assert (Hs : nonneg_vec (skipn n l)).
   { unfold nonneg_vec in *. rewrite <- (firstn_skipn n l) in Hl. apply Forall_app in Hl. tauto. }
@@ -323,8 +337,25 @@ Proof.
   fold (add_all (skipn n l) (r_avail R)).
   constructor; cbn [r_avail r_allocs].
   - apply nonneg_add_all; assumption.
-  - destruct (n =? 0)%nat; [apply (al_remove_forall nonneg_vec)|]; apply (al_set_forall nonneg_vec); assumption.
+  - destruct had; [|apply (al_remove_forall nonneg_vec)]; apply (al_set_forall nonneg_vec); assumption.
 Qed.
+
+(* registering the computation adds at most an empty entry *)
+Lemma allocs_sum_register : forall P c a, allocs_sum P (al_register c a) = allocs_sum P a.
+Proof. intros P c a. unfold al_register. destruct (al_find c a); [reflexivity|]. rewrite allocs_sum_app. cbn. lia. Qed.
+Lemma inv_register : forall R c, Inv_ledger R -> Inv_ledger (mkRes (r_avail R) (r_total R) (al_register c (r_allocs R))).
+Proof.
+  intros R c [C K I_]. constructor; cbn [r_avail r_total r_allocs]; auto.
+  - intro P. rewrite allocs_sum_register. apply C.
+  - unfold al_register. destruct (al_find c (r_allocs R)); [exact I_|]. apply Forall_app. split; [exact I_|]. constructor; constructor.
+Qed.
+Lemma nonneg_register : forall R c, Nonneg R -> Nonneg (mkRes (r_avail R) (r_total R) (al_register c (r_allocs R))).
+Proof.
+  intros R c [A B]. constructor; cbn [r_avail r_allocs]; auto.
+  unfold al_register. destruct (al_find c (r_allocs R)); [exact B|]. apply Forall_app. split; [exact B|]. constructor; constructor.
+Qed.
+Lemma had_entry_n : forall c (a : allocs), (match al_find c a with Some _ => true | None => false end) = false -> length (al_get c a) = 0%nat.
+Proof. intros c a H. unfold al_get. destruct (al_find c a); [discriminate|reflexivity]. Qed.
 
 Lemma inv_allocate_multiple : forall R req c R' o,
   Inv_ledger R -> r_allocate_multiple R req c = (R', o) -> Inv_ledger R'.
@@ -332,18 +363,21 @@ Proof.
   intros R req c R' o HI H. unfold r_allocate_multiple in H.
   destruct (existsb _ req); [inversion H; subst; exact HI|].
   destruct (alloc_seq R req c) as [R1 [u|e]] eqn:Es; inversion H; subst.
-  - eapply inv_alloc_seq; eauto.
-  - apply inv_rollback. eapply inv_alloc_seq; eauto.
+  - apply inv_register. eapply inv_alloc_seq; eauto.
+  - apply inv_rollback; [apply had_entry_n|eapply inv_alloc_seq; eauto].
+Qed.
+Lemma nonneg_allocate_multiple_any : forall R req c R' o,
+  Nonneg R -> r_allocate_multiple R req c = (R', o) -> Nonneg R'.
+Proof.
+  intros R req c R' o HI H. unfold r_allocate_multiple in H.
+  destruct (existsb _ req); [inversion H; subst; exact HI|].
+  destruct (alloc_seq R req c) as [R1 [u|e]] eqn:Es; inversion H; subst.
+  - apply nonneg_register. eapply nonneg_alloc_seq_any; eauto.
+  - apply nonneg_rollback. eapply nonneg_alloc_seq_any; eauto.
 Qed.
 Lemma nonneg_allocate_multiple : forall R req c R' o,
   nonneg_vec req -> Nonneg R -> r_allocate_multiple R req c = (R', o) -> Nonneg R'.
-Proof.
-  intros R req c R' o Hq HI H. unfold r_allocate_multiple in H.
-  destruct (existsb _ req); [inversion H; subst; exact HI|].
-  destruct (alloc_seq R req c) as [R1 [u|e]] eqn:Es; inversion H; subst.
-  - eapply nonneg_alloc_seq; eauto.
-  - apply nonneg_rollback. eapply nonneg_alloc_seq; eauto.
-Qed.
+Proof. intros R req c R' o _. apply nonneg_allocate_multiple_any. Qed.
 
 Lemma inv_deallocate : forall R c R' o, Inv_ledger R -> r_deallocate R c = (R', o) -> Inv_ledger R'.
 Proof.
@@ -404,6 +438,15 @@ Proof.
   - cbn [fst]. apply nonneg_get_allocated. exact HI.
 Qed.
 
+Lemma nonneg_r_step_any : forall R o, Nonneg R -> Nonneg (fst (r_step R o)).
+Proof.
+  intros R [r c q|req c|c|c] HI; cbn [r_step].
+  - destruct (r_allocate R r c q) as [R' x] eqn:E. eapply nonneg_allocate_any; eauto.
+  - destruct (r_allocate_multiple R req c) as [R' x] eqn:E. eapply nonneg_allocate_multiple_any; eauto.
+  - destruct (r_deallocate R c) as [R' x] eqn:E. eapply nonneg_deallocate; eauto.
+  - cbn [fst]. apply nonneg_get_allocated. exact HI.
+Qed.
+
 (* over ALL histories *)
 Theorem inv_r_run : forall ops R, Inv_ledger R -> Inv_ledger (r_run ops R).
 Proof.
@@ -416,6 +459,31 @@ Proof.
   inversion Hq as [|x l H1 H2]; subst. apply IH; [exact H2|]. apply nonneg_r_step; assumption.
 Qed.
 
+(* the totals never change *)
+Lemma total_allocate : forall R r c q R' o, r_allocate R r c q = (R', o) -> r_total R' = r_total R.
+Proof.
+  intros R r c q R' o H. unfold r_allocate in H. destruct (q <? 0); [inversion H; reflexivity|].
+  destruct (_ <? _); [inversion H; reflexivity|]. destruct (alloc_loop _ _ _). inversion H. reflexivity.
+Qed.
+Lemma total_alloc_seq : forall req R c R' o, alloc_seq R req c = (R', o) -> r_total R' = r_total R.
+Proof.
+  induction req as [|[r q] req IH]; intros R c R' o H; cbn [alloc_seq] in H; [inversion H; reflexivity|].
+  destruct (r_allocate R r c q) as [R1 [u|e]] eqn:Ea.
+  - rewrite (IH _ _ _ _ H). eapply total_allocate; eauto.
+  - inversion H; subst. eapply total_allocate; eauto.
+Qed.
+Lemma total_allocate_multiple : forall R req c R' o, r_allocate_multiple R req c = (R', o) -> r_total R' = r_total R.
+Proof.
+  intros R req c R' o H. unfold r_allocate_multiple in H. destruct (existsb _ _); [inversion H; reflexivity|].
+  destruct (alloc_seq R req c) as [R1 [u|e]] eqn:Es; inversion H; subst.
+  - cbn [r_total]. exact (total_alloc_seq _ _ _ _ _ Es).
+  - unfold r_rollback. destruct (al_find c (r_allocs R1)); cbn [r_total]; exact (total_alloc_seq _ _ _ _ _ Es).
+Qed.
+Lemma total_deallocate : forall R c R' o, r_deallocate R c = (R', o) -> r_total R' = r_total R.
+Proof. intros R c R' o H. unfold r_deallocate in H. destruct (al_find _ _); inversion H; reflexivity. Qed.
+Lemma total_get_allocated : forall R c, r_total (fst (r_get_allocated_resources R c)) = r_total R.
+Proof. intros R c. unfold r_get_allocated_resources. destruct (al_find _ _); reflexivity. Qed.
+
 (* the statement of C04 for one Resources object *)
 Theorem ledger_conservation : forall v ops,
   let R := r_run ops (r_new v) in
@@ -427,19 +495,10 @@ Proof.
   assert (T : forall ops R0, r_total (r_run ops R0) = r_total R0).
   { unfold r_run. induction ops0 as [|o ops0 IH]; intros R0; cbn [fold_left]; [reflexivity|]. rewrite IH.
     destruct o as [r c q|req c|c|c]; cbn [r_step].
-    - unfold r_allocate. destruct (_ <? _); [reflexivity|]. destruct (alloc_loop _ _ _). reflexivity.
-    - unfold r_allocate_multiple. destruct (existsb _ _); [reflexivity|].
-      assert (A : forall req R1, r_total (fst (alloc_seq R1 req c)) = r_total R1).
-      { induction req0 as [|[r q] req0 IHr]; intros R1; cbn [alloc_seq]; [reflexivity|].
-        destruct (r_allocate R1 r c q) as [R2 [u|e]] eqn:Ea.
-        - rewrite IHr. unfold r_allocate in Ea. destruct (_ <? _); [inversion Ea; reflexivity|].
-          destruct (alloc_loop _ _ _). inversion Ea. reflexivity.
-        - cbn [fst]. unfold r_allocate in Ea. destruct (_ <? _); [inversion Ea; reflexivity|].
-          destruct (alloc_loop _ _ _). inversion Ea. }
-      specialize (A req R0). destruct (alloc_seq R0 req c) as [R1 [u|e]]; cbn [fst] in *; [exact A|].
-      unfold r_rollback. destruct (al_find _ _); cbn [r_total]; exact A.
-    - unfold r_deallocate. destruct (al_find _ _); reflexivity.
-    - unfold r_get_allocated_resources. destruct (al_find _ _); reflexivity. }
+    - destruct (r_allocate R0 r c q) eqn:E. eapply total_allocate; eauto.
+    - destruct (r_allocate_multiple R0 req c) eqn:E. eapply total_allocate_multiple; eauto.
+    - destruct (r_deallocate R0 c) eqn:E. eapply total_deallocate; eauto.
+    - apply total_get_allocated. }
   specialize (T ops (r_new v)). fold R in T. cbn [r_new r_total] in T.
   repeat split.
   - intro P. rewrite C, T. reflexivity.
@@ -449,3 +508,11 @@ Qed.
 Theorem ledger_nonneg : forall v ops, nonneg_vec v -> Forall rop_nonneg ops ->
   nonneg_vec (r_avail (r_run ops (r_new v))).
 Proof. intros v ops Hv Ho. apply nn_avail. apply nonneg_r_run; [exact Ho|apply nonneg_new; exact Hv]. Qed.
+
+(* since a negative quantity is refused (/repo 84d7416): available >= 0 over ALL histories *)
+Theorem ledger_nonneg_all : forall v ops, nonneg_vec v -> nonneg_vec (r_avail (r_run ops (r_new v))).
+Proof.
+  intros v ops Hv. apply nn_avail. assert (G : forall ops R, Nonneg R -> Nonneg (r_run ops R)).
+  { unfold r_run. induction ops0 as [|o ops0 IH]; intros R HI; cbn [fold_left]; [exact HI|]. apply IH. apply nonneg_r_step_any. exact HI. }
+  apply G. apply nonneg_new. exact Hv.
+Qed.
